@@ -406,7 +406,10 @@ def main():
             new_failures.append(f)
     # a disagreement on an op whose only oracle failures are known findings is the same finding
     # seen from the model's side (the model describes the property-conforming behaviour there)
-    known_ops = {(f.get("outdir"), f["op_index"]) for f in failures if any(k["class"] == f["class"] for k in known)}
+    # Only for findings that say so ("model_conforms": true): by default the model follows the code, defect
+    # included, so a disagreement on such an op is a real disagreement and is reported.
+    known_ops = {(f.get("outdir"), f["op_index"]) for f in failures
+                 if any(k["class"] == f["class"] and k.get("model_conforms") for k in known)}
     real_disagreements = [d for d in disagreements if d is None or (d.get("outdir"), d["op_index"]) not in known_ops]
 
     # ---- 7 verdict ---------------------------------------------------------------------------
